@@ -1001,7 +1001,9 @@ func (r *Reader) Release() {
 		closer.Close()
 	}
 	if r.indexBlock != nil {
-		r.indexBlock.Release()
+		// Don't recycle its buffer: iterators walk this block without
+		// holding a reference to it (see getIndexBlock), and a reader that is
+		// released by force (the DB is closed) may still have iterators.
 		r.indexBlock = nil
 	}
 	if r.filterBlock != nil {
